@@ -255,7 +255,7 @@ func NegativeSources() []string { return c03Negative }
 // c03Ref compares the parser with the independent recogniser refparse on the
 // first command line of src. mode 3: whatever the recogniser does not classify
 // as a complete command must be rejected (C03). mode 2: a complete command must
-// be accepted and consumed exactly (the converse, C02 / C07).
+// be accepted and consumed exactly (the converse, C02 / C07). mode 5: both.
 func c03Ref(src []rune, mode int) {
 	if contInHeredoc(src) {
 		nd.Assume(false) // continuations inside words / here-documents: outside the recogniser
@@ -267,7 +267,7 @@ func c03Ref(src []rune, mode int) {
 	nd.Observe(string(src))
 	if v == RefComplete {
 		nd.Cover("ref-complete")
-		if mode == 2 {
+		if mode == 2 || mode == 5 {
 			nd.Assert(err == nil, "a command the reference recogniser accepts is accepted")
 			if err == nil {
 				nd.Assert(s.I == end, "the call consumes exactly the command the recogniser delimits")
@@ -276,7 +276,7 @@ func c03Ref(src []rune, mode int) {
 		return
 	}
 	nd.Cover("ref-rejects")
-	if mode == 3 {
+	if mode == 3 || mode == 5 {
 		nd.Assert(err != nil, "input the reference recogniser classifies as ill-formed or incomplete is rejected")
 	}
 }
@@ -332,3 +332,53 @@ func prefixSource() []rune {
 
 func C03_Prefix() { c03Ref(prefixSource(), 3) }
 func C02_Prefix() { c03Ref(prefixSource(), 2) }
+
+// C03_Mut / C02_Mut: every single-token deletion, duplication, adjacent swap
+// and insertion (of a multi-character operator or reserved word, or of one
+// symbolic character over D) applied to a generated
+// well-formed program; the recogniser classifies the result and the parser
+// must agree (mode 3: not complete => rejected; mode 2: complete => accepted
+// and consumed exactly).
+var mutInserts = []string{"&&", "if", "then", "fi", "do", "done", "esac", "in", ";;", ">>", "<<E", "((", "))", "$(", "${"}
+
+func mutSource(budget int) []rune {
+	g := &gen{budget: budget, leaf: "a", name: "v"}
+	text, _ := g.seq(2, false)
+	toks := fieldsOf(text)
+	if len(toks) == 0 {
+		nd.Assume(false)
+	}
+	k := nd.Choice(len(toks))
+	var out []string
+	switch nd.Choice(4) {
+	case 0:
+		out = append(append(out, toks[:k]...), toks[k+1:]...)
+		nd.Cover("deletion")
+	case 1:
+		out = append(append(append(out, toks[:k+1]...), toks[k]), toks[k+1:]...)
+		nd.Cover("duplication")
+	case 2:
+		if k+1 >= len(toks) {
+			nd.Assume(false)
+		}
+		out = append(out, toks...)
+		out[k], out[k+1] = out[k+1], out[k]
+		nd.Cover("swap")
+	case 3:
+		var ins string
+		if c := nd.Choice(len(mutInserts) + 1); c < len(mutInserts) {
+			ins = mutInserts[c]
+		} else {
+			ins = string(nd.Rune()) // any single character over D as a token of its own
+		}
+		out = append(append(append(out, toks[:k]...), ins), toks[k:]...)
+		nd.Cover("insertion")
+	}
+	if g.arithIn {
+		nd.Assume(false) // KF-C02-arith-in-parentheses
+	}
+	return []rune(joinTokens(out))
+}
+
+func C03_Mut1() { c03Ref(mutSource(1), 5) }
+func C03_Mut2() { c03Ref(mutSource(2), 5) }
